@@ -143,6 +143,24 @@ MUTANTS = [
     ("c19_22_set_no_reboot", "C19", [(P22,
         "class IncomingMessageHandler(IncomingMessageHandler21):\n    \"\"\"Represent a message handler.\"\"\"\n",
         "class IncomingMessageHandler(IncomingMessageHandler21):\n    \"\"\"Represent a message handler.\"\"\"\n\n    @classmethod\n    async def handle_i_config(cls, gateway, message, message_buffer):  # noqa: ANN001, ANN206, D102\n        if gateway.nodes.get(message.node_id) and gateway.nodes[message.node_id].sleeping:\n            return message\n        return await super().handle_i_config(gateway, message, message_buffer)\n")]),
+    ("c17_readline_partial_at_eof", "C17", [(TR,
+        "            read = await self.reader.readuntil(TERMINATOR)", "            read = await self.reader.readline()")]),
+    ("c17_decode_ignore", "C17", [(TR, "            return read.decode()", "            return read.decode(errors=\"ignore\")")]),
+    ("c17_revert_decode_fix", "C17 C03", [(TR,
+        "        try:\n            return read.decode()\n        except UnicodeDecodeError as err:\n            raise TransportReadError(err, read) from err\n",
+        "        return read.decode()\n")]),
+    ("c17_write_ascii_replace", "C17", [(TR, "            self.writer.write(decoded_message.encode())",
+        "            self.writer.write(decoded_message.encode(\"ascii\", \"replace\"))")]),
+    ("c17_eof_maps_to_empty", "C17", [(TR,
+        "        except asyncio.IncompleteReadError as err:\n            raise TransportReadError(err, err.partial) from err",
+        "        except asyncio.IncompleteReadError as err:\n            if not err.partial:\n                return \"\"\n            raise TransportReadError(err, err.partial) from err")]),
+    ("c17_no_drain", "C17", [(TR, "            await self.writer.drain()\n", "")]),
+    ("c17_disconnect_not_absorbing", "C17 C16", [(TR, "        except OSError:\n            pass", "        except ConnectionError:\n            pass")]),
+    ("c17_connect_timeout_uncaught", "C17", [(TR, "            self.reader, self.writer = await self._open_connection()\n        except OSError as err:",
+        "            self.reader, self.writer = await self._open_connection()\n        except ConnectionError as err:")]),
+    ("c17_write_before_connect_noop", "C17", [(TR,
+        "        if self.writer is None:\n            raise TransportError(\"Not connected to stream transport.\")\n\n        try:\n            self.writer.write",
+        "        if self.writer is None:\n            return\n\n        try:\n            self.writer.write")]),
     ("c09_revert_fix", "C09", [(P20,
         "            if message_buffer.set_messages.get(key) is buffer_message:\n                message_buffer.set_messages.pop(key)",
         "            message_buffer.set_messages.pop(key, None)")]),
